@@ -31,6 +31,12 @@ CHECKS = {
    design_ref="DESIGN.md §2.3, §4 C05",
    note="Trusted: the harness evaluator/ring (cross-checked against the gate simulator on harness-translated circuits at every start), the whole-task fork-join model (complete while tasks share no mutable state; a syntactic audit of quizx/src for Mutex/Atomic/RefCell/unsafe/static mut runs with every check and is reported in the evidence). Bounds: <=14 spiders, T-count <=10 quick / <=14 thorough, circuits <=4 qubits. Budget overruns are reported as inconclusive (exit 2 above 1%), never as violations: the property does not state termination.",
    technique="deterministic simulation: seeded decider behind RNG / hash-order / fork-join seams, exact-evaluator oracle + per-step conservation invariants + sequential/parallel twin, shrinking + replay files"),
+ "C13": dict(
+   category="exploration",
+   text="Seeded simulation of the qgraph round trip: the decider owns the generated diagram and, through the hash-order seam, the RandomState key of every map created in the encoder and in each of several independent decodes, so JSON member order, decoded vertex numbering and edge insertion order are recorded, replayable decisions instead of per-process accidents. Decoded graphs are compared with the original by an input/output-anchored isomorphism oracle (types, phases, edge types, coordinates), exact scalar comparison in Z[omega]/2^k for sqrt2^p e^{ik pi/4} and 1e-9 relative otherwise, tensor equality where evaluable, and pairwise between hash orders. The file form (write_graph/read_graph) runs on a real filesystem under injected ENOSPC, a torn write at a decider-chosen offset (RLIMIT_FSIZE, child process), missing directory and directory-as-target; only a reported success with a missing, undecodable or different file is a violation.",
+   design_ref="DESIGN.md §2.5, §4 C13",
+   note="Trusted: the isomorphism checker (self-tested on permuted copies and on edge-type mutations at every start), the ZX evaluator, tmpfs//dev/full/RLIMIT_FSIZE semantics. Coordinates are compared to 1e-12 relative (serde_json's default float parser is not correctly rounded in the last bit); for phase denominators above 256 - outside the exactness clause - only agreement to 1/256 is demanded; a scalar whose dyadic coefficients equal the original is accepted even if flagged approximate. Bounds: <=10 spiders, <=6 boundaries.",
+   technique="deterministic simulation: seeded decider behind the hash-order seam + fault injection on the real filesystem, anchored-isomorphism / exact-scalar / tensor oracles, shrinking + replay files"),
  "C18": dict(
    category="exploration",
    text="Seeded simulation of move histories: the simulator is the caller of the existing `impl Rng` seam (and of the ambient-RNG seam in rank_decomp), so every internal choice of every move and of the annealer is a recorded decision. After every operation the tree is checked structurally by the harness, against is_valid_for_graph, and its cached width/score against a cache-cleared recomputation and a brute-force F2 cut-rank oracle. Sampling, not enumeration: a clean batch is evidence within the stated bounds.",
@@ -42,7 +48,6 @@ CHECKS = {
 PENDING = {
  "C03": "claimed by DESIGN.md (CLI clause) but its check is not built yet at this commit; not claimed until it is",
  "C06": "claimed by DESIGN.md but its check is not built yet at this commit; not claimed until it is",
- "C13": "claimed by DESIGN.md but its check is not built yet at this commit; not claimed until it is",
  "C19": "claimed by DESIGN.md but its check is not built yet at this commit; not claimed until it is",
 }
 
